@@ -53,6 +53,19 @@ theorem stable_30 : Stable F30.parse F30.ser := by
     unfold F30.parse Res.ofOption
     simp [hp]
 
+/-- A parser whose serialiser reproduces the text that was read is stable. -/
+theorem stable_of_reproduces {V : Type} (parse : Text → Res V) (ser : V → Text)
+    (h : ∀ s v, parse s = .ok v → ser v = s) : Stable parse ser := by
+  intro s v hp
+  rw [h s v hp]; exact hp
+
+/-- 52A, 53A, 54A, 55A, 56A, 57A, 58A -/
+theorem stable_optionA : Stable OptA.parse OptA.ser := stable_of_reproduces _ _ optA_reproduces
+/-- 52C, 56C, 57C -/
+theorem stable_optionC : Stable OptC.parse OptC.ser := stable_of_reproduces _ _ optC_reproduces
+/-- 52D, 54D, 55D, 56D, 57D, 58D -/
+theorem stable_optionD : Stable OptD.parse OptD.ser := stable_of_reproduces _ _ optD_reproduces
+
 /-! ### Message level: what the serialisers write is read back exactly
 
 `to_mt_string` writes every field as `:tag:content` followed by CRLF and drops the last CRLF (`append_field`,
